@@ -4,6 +4,7 @@ import math
 from ..core import RuleResult
 from ..facts import AnchorMissing, Operand, Place
 from .. import an, sl
+from ..facts import norm as facts_norm
 from . import common, conv
 
 # E3: CSS absolute-unit ratios, expressed as the size of one unit in the class's base unit.
@@ -361,6 +362,37 @@ def _derives_from(body, ap, call_bb, depth=0):
                _derives_from(body, an.trace_operand(body, a), call_bb, depth + 1) for a in c.args)
 
 
+def _closure_roles(prog, cb):
+    """For a closure passed to Vec::retain: repr(access path inside the closure) -> 'NUMER' | 'DENOM' for its element parameter
+    and its captured variables, from Unit::numer_and_denom() tuple fields in the parent."""
+    parent_path = cb.path.rsplit("::{closure", 1)[0]
+    parent = prog.bodies.get(parent_path)
+    if parent is None:
+        return None
+
+    def role(ap, depth=0):
+        # ... numer_and_denom()@bbN.#0 / .#1, possibly through into_iter()/next()
+        if ap.root[0] == "call" and ap.root[1].endswith("Unit::numer_and_denom"):
+            f = [x for x in ap.proj if x in ("#0", "#1")]
+            return {"#0": "NUMER", "#1": "DENOM"}.get(f[0]) if f else None
+        if ap.root[0] == "call" and depth < 4:
+            c = parent.call_at(ap.root[2])
+            if c is not None and an.tail2(c.callee) in ("Iterator::next", "IntoIterator::into_iter") and c.args:
+                return role(an.trace_operand(parent, c.args[0]), depth + 1)
+        return None
+
+    out = {}
+    for c in parent.calls():
+        if an.tail2(c.callee) != "Vec::retain" or len(c.args) != 2 or c.args[1].place is None:
+            continue
+        for bb, i, d in parent.defs_of(c.args[1].place.local):
+            if isinstance(d, dict) and d.get("agg") == "closure" and facts_norm(d["def"]) == cb.path:
+                out["arg2"] = role(an.trace_operand(parent, c.args[0]))
+                for k, op in enumerate(d["ops"]):
+                    out["arg1.#%d" % k] = role(an.trace_operand(parent, Operand(op)))
+    return out or None
+
+
 def rule_d(ctx):
     r = RuleResult("C08-d", "conversion direction: `from` is the converted number's own unit, `to` is the other operand's unit and the unit stored in the result")
     prog = ctx.prog()
@@ -417,7 +449,38 @@ def rule_d(ctx):
                         r.ok(key, ladder=[repr(a) for a in alts])
                     else:
                         r.violate(key, "%s stores the converted result with unit %r although it was converted to %r" % (fn, ops.get("unit"), s.to), "%s:%d" % (b.file, st["span"]["l"]))
-    r.floor("direction obligations", n, 30)
+    # unit cancellation in multiply_units: a numerator unit N is cancelled against a denominator unit D of the product.
+    # With f = conversion_factor(from, to) (one `from` = f `to`), dropping N/D from the unit requires  num /= f(D, N)  or  num *= f(N, D).
+    nc = 0
+    for cb in [b_ for b_ in prog.bodies.values() if b_.is_closure() and b_.crate == "grass_compiler"]:
+        cf = [c_ for c_ in cb.calls() if (c_.name() or "").endswith("sass_number::conversion_factor")]
+        if not cf:
+            continue
+        roles = _closure_roles(prog, cb)
+        if roles is None:
+            continue
+        for c_ in cf:
+            fr = roles.get(repr(an.trace_operand(cb, c_.args[0])))
+            to = roles.get(repr(an.trace_operand(cb, c_.args[1])))
+            ops_ = set()
+            for bb_, i_, pl_, rv_, st_ in cb.assignments():
+                if rv_["k"] == "binop" and rv_["op"] in ("Div", "Mul"):
+                    for side in ("a", "b"):
+                        src = an.trace_operand(cb, Operand(rv_[side]))
+                        if src.root[0] == "call" and src.root[2] == c_.bb:
+                            ops_.add((rv_["op"], side))
+            key = "%s|cancel-direction" % cb.path
+            nc += 1
+            n += 1
+            good = (fr, to, ops_) in (("DENOM", "NUMER", {("Div", "b")}), ("NUMER", "DENOM", {("Mul", "a")}), ("NUMER", "DENOM", {("Mul", "b")}))
+            if good:
+                r.ok(key, frm=fr, to=to, applied=sorted(ops_))
+            else:
+                r.violate(key, "%s cancels a numerator unit against a denominator unit with factor conversion_factor(from=%s, to=%s) applied as %s; "
+                          "dimensionally the value must be divided by conversion_factor(denominator, numerator) (or multiplied by the reverse factor)"
+                          % (cb.path, fr, to, sorted(ops_)), c_.loc())
+    r.floor("unit-cancellation sites (multiply_units closures)", nc, 2)
+    r.floor("direction obligations", n, 32)
     # unit-selection ladder of the four sibling implementations
     ladders = {}
     for name in ("evaluate::bin_op::add", "evaluate::bin_op::sub", "<grass_compiler::value::sass_number::SassNumber as std::ops::arith::Add>::add", "<grass_compiler::value::sass_number::SassNumber as std::ops::arith::Sub>::sub"):
